@@ -385,6 +385,19 @@ func execV4Acc(op string, args []string) string {
 		return "ok " + a.run(p, time.Duration(atoi64(args[3])))
 	case "v4hist":
 		return v4accExecHist(args)
+	case "v4accdec":
+		if len(args) != 3 {
+			return "bad-op"
+		}
+		a := findAcc(args[0])
+		if a == nil {
+			return "bad-op"
+		}
+		p, err := dhcpv4.FromBytes(unhx(args[2]))
+		if err != nil {
+			return "err"
+		}
+		return "ok " + a.run(p, time.Duration(atoi64(args[1])))
 	case "v4setget":
 		if len(args) != 3 {
 			return "bad-op"
@@ -623,6 +636,106 @@ func genAccLine(r *Rng, a *accEntry, n int, mode int) (string, []string) {
 		[]string{"acc=" + a.name, "kind=" + a.kind, "fill=" + tag}
 }
 
+// dpnGenAccDecLine: a whole packet laid out by hand (240-octet header and
+// cookie, then the options area) carrying the accessor's option in one of the
+// shapes that decide the nil-ness and the concatenation of its value: one
+// instance, only zero-length instances, RFC 3396 fragments (adjacent or with
+// other options between), a zero-length instance before or after a non-empty
+// one, absent; pads and decoys around; the End option sometimes missing
+// (FromBytes fails) or followed by garbage.
+func dpnGenAccDecLine(r *Rng, a *accEntry, n int) (string, []string) {
+	var v []byte
+	fill := ""
+	switch r.Intn(4) {
+	case 0, 1:
+		v, fill = wfValue(r, a.kind, n), "wf"
+	case 2:
+		v, fill = tile(r, a.kind, n), "tiled-exact-len"
+	default:
+		v, fill = r.Bytes(n), "random"
+	}
+	if len(v) > 255 {
+		v = v[:255]
+	}
+	inst := func(b []byte) []byte { return append([]byte{a.code, byte(len(b))}, b...) }
+	mkDecoy := func() []byte {
+		k := a.code + uint8(r.Pick([]int{1, 2, 5, 100, 200}))
+		if k == 0 || k == 255 || k == a.code {
+			k = 250
+		}
+		d := r.Bytes(r.Pick([]int{0, 1, 4}))
+		return append([]byte{k, byte(len(d))}, d...)
+	}
+	var area []byte
+	pad := func() {
+		for r.Chance(1, 4) {
+			area = append(area, 0)
+		}
+	}
+	between := func() {
+		pad()
+		if r.Chance(1, 3) {
+			area = append(area, mkDecoy()...)
+		}
+	}
+	shape := ""
+	between()
+	switch k := r.Intn(12); {
+	case k < 3:
+		shape = "one-instance"
+		area = append(area, inst(v)...)
+	case k < 5:
+		shape = "zero-length-only"
+		area = append(area, inst(nil)...)
+		if r.Bool() {
+			between()
+			area = append(area, inst(nil)...)
+		}
+	case k < 8:
+		shape = "fragments"
+		cut := 0
+		if len(v) > 0 {
+			cut = r.Intn(len(v) + 1)
+		}
+		area = append(area, inst(v[:cut])...)
+		between()
+		area = append(area, inst(v[cut:])...)
+	case k < 9:
+		shape = "zero-then-value"
+		area = append(area, inst(nil)...)
+		between()
+		area = append(area, inst(v)...)
+	case k < 10:
+		shape = "value-then-zero"
+		area = append(area, inst(v)...)
+		between()
+		area = append(area, inst(nil)...)
+	default:
+		shape = "absent"
+	}
+	between()
+	switch r.Intn(12) {
+	case 0:
+		shape += "+no-end"
+	case 1:
+		area = append(area, 255)
+		area = append(area, r.Bytes(r.Range(1, 6))...)
+	default:
+		area = append(area, 255)
+	}
+	hdr := make([]byte, 236)
+	hdr[0], hdr[1], hdr[2] = byte(r.Range(1, 2)), 1, 6
+	copy(hdr[4:8], r.Bytes(4))
+	copy(hdr[28:34], r.Bytes(6))
+	q := append(append(hdr, 99, 130, 83, 99), area...)
+	def := int64(0)
+	if a.kind == "durdef" {
+		def = []int64{0, -1, 12345, 3600e9}[r.Intn(4)]
+	}
+	return fmt.Sprintf("v4accdec %s %d %s", a.name, def, hx(q)),
+		[]string{"acc=" + a.name, "kind=" + a.kind, "decoded", "shape=" + shape, "fill=" + fill}
+}
+
 func genIPArg(r *Rng) string {
 	switch r.Intn(10) {
 	case 0:
@@ -797,14 +910,20 @@ func init() {
 	accs, ctors := modelAccs(), modelCtors()
 	// The generated part walks (accessor, length 0..64, filling) cyclically, so
 	// a run with >= len(accs)*65*4 accessor cases (7280; the quick tier asks
-	// for more) hits every length of every accessor with every filling; the
-	// bytes come from the per-case PRNG. Of every six cases one is a set/get
-	// and one a set/get history.
-	nAcc, nSet, nHist := 0, 0, 0
+	// for more: 4/7 of 13000) hits every length of every accessor with every filling; the
+	// bytes come from the per-case PRNG. Of every seven cases one is a set/get,
+	// one a set/get history and one an accessor on a decoded packet (v4accdec).
+	nAcc, nSet, nHist, nDec := 0, 0, 0, 0
 	register(&Stream{
 		Name: "v4acc",
 		Gen: func(r *Rng, thorough bool) (string, []string) {
-			switch (nAcc + nSet + nHist) % 6 {
+			switch (nAcc + nSet + nHist + nDec) % 7 {
+			case 6:
+				// the accessor on a packet that came out of FromBytes: every
+				// accessor x value length 0..40 cyclically
+				i := nDec
+				nDec++
+				return dpnGenAccDecLine(r, accs[i%len(accs)], (i/len(accs))%41)
 			case 4:
 				nSet++
 				return genSetGetLine(r, ctors[nSet%len(ctors)])
